@@ -150,6 +150,12 @@ def obligations(tier):
             obs += list(e2e_obs(pat, hi if pat == "vMAJOR.MINOR" else 9, t))
     obs.append(Ob("L2.test_skeleton", "c01.py", "test_skeleton", {}, timeout=t))
     obs.append(Ob("twin.test_announces", "c01.py", "twin_test_never_announces", {}, expect="refute", timeout=60))
+    # L0: the version an update starts from (config value or newest tag, per scope) - C09's selection lemma
+    from vp.props import c09 as _c09
+    sel = [o for o in _c09.obligations(tier) if o.name.startswith("L2.select_tag") and ("scope 0" in o.name)]
+    if tier == "quick":
+        sel = [o for o in sel if "'c0': 0, 'c1': 0" in o.name or "digit-length crossing" in o.name]
+    obs += sel
     # L3: the update command's skeleton (shared with C10)
     obs += [o for o in _c10.obligations(tier) if o.name.startswith("L3.update_skeleton") or o.name.startswith("twin.update")]
     return obs
